@@ -323,7 +323,31 @@ class LegacyRun:
                     return out
             return Wrapped
 
+        def multi_factory(bs, st, factory):
+            made = {b: factory(b, st) for b in bs}
+
+            def make(target):
+                name = target.get_parameter_names()[0]
+                return made[name](target)
+            return make
+
         strat = {b: factory(b, st) for b, st in sc["strategy"].items()}
+        if sc.get("tuple_keys"):
+            # legacy strategy with a tuple key: one sampler class shared by several blocks.  The factory of the first
+            # block of the tuple is used for all of them (name is resolved at call time from the target's parameter).
+            blocks = sorted(strat)
+            kinds = {b: sc["strategy"][b]["kind"] for b in blocks}
+            groups = {}
+            for b in blocks:
+                groups.setdefault((kinds[b], str(sorted(sc["strategy"][b]["knobs"].items()))), []).append(b)
+            merged = {}
+            for (kind, _), bs in groups.items():
+                if len(bs) > 1:
+                    merged[tuple(bs)] = multi_factory(bs, sc["strategy"][bs[0]], factory)
+                    ctx.hit("tuple_keys_in_legacy_strategy")
+                else:
+                    merged[bs[0]] = strat[bs[0]]
+            strat = merged
         g = LS.Gibbs(J, strat)
         names = list(g.par_names)
         names_box.append(names)
@@ -381,6 +405,7 @@ def gen_case(r, tier):
     ops = []
     if legacy:
         sc["Nb"] = r.choice([0, 0, 2, 5])
+        sc["tuple_keys"] = r.random() < 0.4
         for _ in range(r.randint(1, 3)):
             ops.append({"op": "sample", "n": r.randint(1, 8)})
     else:
